@@ -268,6 +268,17 @@ def execute(case):
     # a peer that was refused must not be able to use the connection as a session: it offers a complete transfer
     refused_peer_transfer = False
     if (not want['proceed'] or not want['established']) and not end.sock.closed:
+        # it also tries again with another SESS_INIT, this time announcing a node id its certificate does name
+        for retry_id in ('dtn://somebody-else/', nodeid or 'dtn://peer/'):
+            try:
+                world.peer_send(r.encode({'t': 'SESS_INIT', 'keepalive': 0, 'segment_mru': 1000, 'transfer_mru': 10 ** 6,
+                                          'nodeid': retry_id, 'ext': []}))
+            except OSError:
+                break
+            world.settle()
+            if end.sock.closed:
+                break
+    if (not want['proceed'] or not want['established']) and not end.sock.closed:
         try:
             world.peer_send(r.encode({'t': 'XFER_SEGMENT', 'flags': 3, 'id': 7, 'ext': [r.transfer_length_ext(12)],
                                       'data': b'from-refused'.hex()}))
